@@ -27,6 +27,9 @@ type mut struct {
 
 func main() {
 	root := os.Args[1]
+	// a second operator set (mutgen <root> set2): whole conditions negated / forced, adjacent call arguments and return
+	// values swapped, defers deleted
+	set2 := len(os.Args) > 2 && os.Args[2] == "set2"
 	enc := json.NewEncoder(os.Stdout)
 	filepath.Walk(root, func(path string, info os.FileInfo, err error) error {
 		if err != nil || info.IsDir() {
@@ -53,6 +56,50 @@ func main() {
 			fname := fd.Name.Name
 			emit := func(start, end int, repl, kind string, pos token.Pos) {
 				enc.Encode(mut{rel, start, end, repl, kind, fset.Position(pos).Line, fname})
+			}
+			src, _ := os.ReadFile(path)
+			text := func(n ast.Node) string { return string(src[off(n.Pos()):off(n.End())]) }
+			if set2 {
+				ast.Inspect(fd.Body, func(n ast.Node) bool {
+					switch x := n.(type) {
+					case *ast.IfStmt:
+						c := x.Cond
+						emit(off(c.Pos()), off(c.End()), "!("+text(c)+")", "negate if", c.Pos())
+						emit(off(c.Pos()), off(c.End()), "false && ("+text(c)+")", "if false", c.Pos())
+					case *ast.ForStmt:
+						if x.Cond != nil {
+							c := x.Cond
+							emit(off(c.Pos()), off(c.End()), "!("+text(c)+")", "negate for", c.Pos())
+						}
+					case *ast.CallExpr:
+						for i := 0; i+1 < len(x.Args); i++ {
+							a, b := x.Args[i], x.Args[i+1]
+							if text(a) == text(b) {
+								continue
+							}
+							emit(off(a.Pos()), off(b.End()), text(b)+string(src[off(a.End()):off(b.Pos())])+text(a), "swap args", a.Pos())
+						}
+					case *ast.ReturnStmt:
+						for i := 0; i+1 < len(x.Results); i++ {
+							a, b := x.Results[i], x.Results[i+1]
+							if text(a) == text(b) {
+								continue
+							}
+							emit(off(a.Pos()), off(b.End()), text(b)+string(src[off(a.End()):off(b.Pos())])+text(a), "swap results", a.Pos())
+						}
+					case *ast.DeferStmt:
+						emit(off(x.Pos()), off(x.End()), "_ = 0", "delete defer", x.Pos())
+					case *ast.SliceExpr:
+						if x.Low != nil && x.High == nil {
+							emit(off(x.Low.Pos()), off(x.Low.End()), "("+text(x.Low)+")+1", "slice low+1", x.Low.Pos())
+						}
+						if x.High != nil && x.Low == nil {
+							emit(off(x.High.Pos()), off(x.High.End()), "("+text(x.High)+")-1", "slice high-1", x.High.Pos())
+						}
+					}
+					return true
+				})
+				continue
 			}
 			ast.Inspect(fd.Body, func(n ast.Node) bool {
 				switch x := n.(type) {
